@@ -271,8 +271,7 @@ def run_shard(ctx):
             case = {"kind": kv[0], "value": kv[1], "doc": d == 0}
             try:
                 run_case(case, ctx)
-                if ctx.evaluations % 499 == 0:
-                    ctx.sample({"kind": kv[0], "value": repr(kv[1])})
+                ctx.maybe_sample({"kind": kv[0], "value": repr(kv[1])}, 499)
             except Abandon:
                 pass
         return t
